@@ -29,7 +29,9 @@
    `compiler_info`, literally, in the order of the code:
      1. compiler_proxies lookup — only rustup registers proxies (for rustc); on the
         C/C++ path the map stays empty, so `resolved_with_proxy = None`.  Left out.
-     2. metadata(path): failure = `.expect(..)` panic, nothing changed.
+     2. metadata(path): failure = `Err("cannot stat compiler ..")` returned at once, i.e. the
+        request is answered "unsupported compiler"; nothing is changed, nothing is detected,
+        nothing is inserted (not even the negative entry).
      3. canonicalize, kept only if the file name is unchanged ("clang multicall").
      4. dist_info: no dist client here, always None.  Left out.
      5. lookup; hit iff the entry's mtime equals the current one; else
@@ -120,7 +122,7 @@ Definition ckey (legacy : bool) (p r : path) : ckeyt := if legacy then (r, r) el
 Definition ckey_neg (legacy : bool) (p r : path) : ckeyt := if legacy then (p, p) else (p, r).
 
 Inductive info :=
-| IPanic
+| INoStat
 | IErr
 | IOk (exe : path) (id : N) (detected : bool).
 
@@ -130,7 +132,7 @@ Section Model.
 
   Definition compiler_info (legacy : bool) (c : cmap) (f : fs) (p : path) : cmap * info :=
     match resolve FUEL f p with
-    | None => (c, IPanic)
+    | None => (c, INoStat)
     | Some (t, (b, m)) =>
         let r := if snd t =? snd p then t else p in
         let k := ckey legacy p r in
@@ -148,8 +150,8 @@ Section Model.
   (* ---------- requests ---------- *)
 
   Inductive outcome :=
-  | OPanic                 (* compiler_info panicked: the path cannot be stat'ed *)
-  | OUnsupported           (* detection failed: the client runs the compiler itself *)
+  | OUnsupported           (* the path cannot be stat'ed, or detection failed: the client runs
+                              the compiler itself *)
   | OFail                  (* the remembered executable could not be run / failed to preprocess *)
   | OHit (producer : N)    (* stored object returned; producer = binary that made it *)
   | OMiss (producer : N).  (* compiled now by `producer`, stored *)
@@ -195,7 +197,7 @@ Section Model.
       {| e_path := p; e_src := src; e_cur := cur; e_id := id; e_key := key;
          e_detected := det; e_exe := exe; e_ran := ran; e_out := out |} in
     match i with
-    | IPanic => (s', ev None None false None None OPanic)
+    | INoStat => (s', ev None None false None None OUnsupported)
     | IErr => (s', ev None None true None None OUnsupported)
     | IOk exe id det =>
         let k := H id src in
